@@ -246,9 +246,15 @@ fn gen_plan(rng: &mut Prng, forced: Option<(u64, u64)>) -> (ClockSpec, u64) {
             // long stretches with constant delta (first difference 0) or constant first difference
             let k = rng.range(265, 275) as usize;
             let base = rng.range(101, 5000) | 1;
-            let mode = rng.below(2);
+            let mode = rng.below(3);
             for i in 0..k.min(300) {
-                measured[i] = if mode == 0 { base } else { base + 7 * i as u64 };
+                measured[i] = match mode {
+                    0 => base,
+                    1 => base + 7 * i as u64,
+                    // probe durations swinging by exactly 2^31 and back: the second difference of the deltas is
+                    // +-2^32, which IS zero in the 32-bit arithmetic of the stuck test
+                    _ => base + if i % 2 == 1 { 1u64 << 31 } else { 0 },
+                };
             }
             for i in k.min(300)..300 {
                 measured[i] = base + 13 + rng.below(1000) * 2 + (i as u64 % 2) * 977;
